@@ -10,16 +10,17 @@ from .. import roles
 LEVEL_TEXT = ('static analysis by finite-domain abstract interpretation of call.py / cnary.py on the real ASTs: (D1) the purity formula reduces '
               'to n under the mixing model as an exact rational identity, and to r*2^v without purity; (D2) the reference / germline copy table '
               'over ploidy 1..6 x reference sex x sample sex x naming x PAR genome x chromosome class equals the stated one, the pure-path '
-              'sibling agrees, and the PAR filters read the keys of their own sex chromosome; (D3) the rescaled log2 is log2(max(n/ploidy,0.001))'
-              ' + 1 exactly on the classes with r = ploidy//2; (D4) the value stored in `cn` by do_call is round()ed, integer and has interval '
-              'lower bound >= 0 for every real log2 and purity in (0,1], and without purity it is round(r*2^log2) row by row also on a literal '
-              'table whose chromosomes are interleaved; (D6) the stated sample sex always wins over the inferred one in verify_sample_sex (C15 '
-              'rule); (D5) sex / PAR / ploidy / purity flags reach same-role parameters at every call site. The call tables also come without any'
-              ' X row and with Y rows only (chr-named), and a `.loc` store keyed by the labels of masked rows (index[mask]) on a table whose '
-              'labels may repeat is a violation. (CLI) the `call` command line(s), through a model of argparse built from the declarations in '
-              'commands.py and the real _cmd_ body interpreted with readers, library step and writers stubbed: method, ploidy, purity, reference '
-              'sex, stated sample sex (verified only when purity < 1), PAR genome, filters and thresholds reach do_call as given, defaults '
-              'included. Exact over the rationals; IEEE rounding error is not modelled.')
+              'sibling agrees, and the PAR filters, interpreted on literal bins around every PAR1 / PAR2 boundary of both sex chromosomes for '
+              'each genome build and naming, flag exactly the bins of their own chromosome lying wholly inside its own PAR entries; (D3) the '
+              'rescaled log2 is log2(max(n/ploidy,0.001)) + 1 exactly on the classes with r = ploidy//2; (D4) the value stored in `cn` by do_call'
+              ' is round()ed, integer and has interval lower bound >= 0 for every real log2 and purity in (0,1], and without purity it is '
+              'round(r*2^log2) row by row also on a literal table whose chromosomes are interleaved; (D6) the stated sample sex always wins over '
+              'the inferred one in verify_sample_sex (C15 rule); (D5) sex / PAR / ploidy / purity flags reach same-role parameters at every call '
+              'site. The call tables also come without any X row and with Y rows only (chr-named), and a `.loc` store keyed by the labels of '
+              'masked rows (index[mask]) on a table whose labels may repeat is a violation. (CLI) the `call` command line(s), through a model of '
+              'argparse built from the declarations in commands.py and the real _cmd_ body interpreted with readers, library step and writers '
+              'stubbed: method, ploidy, purity, reference sex, stated sample sex (verified only when purity < 1), PAR genome, filters and '
+              'thresholds reach do_call as given, defaults included. Exact over the rationals; IEEE rounding error is not modelled.')
 TECHNIQUE = "abstract interpretation over finite row-class / flag domains with exact rational terms and intervals; role-flow lint"
 
 GETDF = "cnvlib.call.get_as_dframe_and_set_reference_and_expect_copies"
@@ -184,7 +185,9 @@ def d4(chk, prog, ploidies):
         it = Interp(prog, model)
         p = purity_val()
         rows, ns = [], []
-        classes = [c for c in subset if not (c == "pary" and par)]          # r = 0 rows cannot satisfy the premise
+        classes = [c for c in subset if ref_exp_oracle(c, P, hap, fem, par)[0] != 0]          # r = 0 rows (PAR-Y; a haploid chromosome at ploidy 1) cannot satisfy the premise
+        if not classes:
+            continue
         for c in classes:
             r, x = ref_exp_oracle(c, P, hap, fem, par)
             n_ = Term.sym(f"n_{c}", 0, INF, True)
@@ -251,6 +254,7 @@ def run(chk):
     chk.clause("D6", "the stated sample sex reaches the computation: verify_sample_sex (C15 rule)")
     from . import C15
     C15.d3c_stated_sex(chk, prog)
+    C15.sex_labels(chk, prog)       # the names under which the X / Y rows are found (C15 rule)
     chk.clause("D7", "the `call` command line: every option reaches do_call (and the centring / variant / sex steps before it) as given")
     from .. import cliglue
     cliglue.check_call(chk, prog)
